@@ -68,6 +68,19 @@ func goBuild(dir, out, pkg string, lock bool, tags string) error {
 	return nil
 }
 
+// runGo runs the go tool in dir with the given environment.
+func runGo(dir string, env []string, args ...string) error {
+	cmd := exec.Command("go", args...)
+	cmd.Dir = dir
+	cmd.Env = env
+	t0 := time.Now()
+	log, err := cmd.CombinedOutput()
+	if err != nil {
+		return fmt.Errorf("go %v in %s failed after %v: %v\n%s", args, dir, time.Since(t0), err, log)
+	}
+	return nil
+}
+
 // procState returns the state letter of /proc/<pid>/stat ("" when the process is gone).
 func procState(pid int) string {
 	b, err := os.ReadFile(fmt.Sprintf("/proc/%d/stat", pid))
